@@ -105,6 +105,9 @@ func main() {
 	col := &collector{}
 	var samples []any
 
+	if *only == "" || *only == "T" {
+		runClockPart(r) // sequential, before the parallel parts (it moves the clocks and restores them)
+	}
 	var bInfo map[string]any
 	if *only == "" || *only == "B" {
 		bInfo = runB(r, col, &samples)
